@@ -127,6 +127,39 @@ def gen_case(rng, params, index):
         dups = [{"dir": d1, "super": b1}, {"dir": d2, "super": b2}]
         for x in dups:
             files["proj/%s/Dup.qml" % x["dir"]] = "import qmluic.QtWidgets\n%s {\n}\n" % x["super"]
+    # a component whose root type is the duplicated name, in a directory that sees both, with imports repeated and the
+    # own directory imported explicitly (import order is precedence, so a repeated import is not a no-op).  Which Dup
+    # it derives from is not stated; but its instances must accept the properties of the class that the component's
+    # OWN translation reports as the class of its root object.
+    fancy = None
+    DISTINCT = {"QPushButton": ("flat", "true"), "QLabel": ("wordWrap", "true"), "QGroupBox": ("title", '"g"'), "QLineEdit": ("readOnly", "true"),
+                "QCheckBox": ("tristate", "true"), "QDialogButtonBox": ("centerButtons", "true")}
+    if dups and dups[0]["super"] in DISTINCT and dups[1]["super"] in DISTINCT and rng.chance(0.8):
+        df, other = dups[0]["dir"], dups[1]["dir"]
+        if rng.chance(0.5):
+            df, other = other, df
+        if other not in dimports[df]:
+            dimports[df].append(other)
+        imps = [relpath_spelling(rng, df, e) for e in dimports[df]]
+        own = rng.choice([".", "./", "../" + posixpath.basename(df)]) if "/" not in df else "."
+        seq = list(imps)
+        if rng.chance(0.7):
+            seq.insert(rng.randint(0, len(seq)), own)
+        if rng.chance(0.6):
+            seq.insert(rng.randint(0, len(seq)), rng.choice(imps))      # the same directory once more
+        if rng.chance(0.4):
+            seq.append(own)
+        L = ["import qmluic.QtWidgets"] + ['import "%s"' % x for x in seq] + ["Dup {", "}"]
+        files["proj/%s/Fancy.qml" % df] = "\n".join(L) + "\n"
+        users = {}
+        for x in dups:
+            p, v = DISTINCT[x["super"]]
+            name = "UseFancy%s" % x["super"]
+            LL = ["import qmluic.QtWidgets"] + ['import "%s"' % relpath_spelling(rng, df, e) for e in dimports[df]]
+            LL += ["QWidget {", "    QVBoxLayout { Fancy { id: fancy0; %s: %s } }" % (p, v), "}"]
+            files["proj/%s/%s.qml" % (df, name)] = "\n".join(LL) + "\n"
+            users[x["super"]] = "%s/%s.qml" % (df, name)
+        fancy = {"source": "%s/Fancy.qml" % df, "users": users}
     # noise
     for d in dirs:
         if rng.chance(0.4):
@@ -225,7 +258,7 @@ def gen_case(rng, params, index):
     for i in range(len(negatives)):
         scheds.append({"perm": [], "cwd": ".", "dot": [], "hash_seed": rng.randint(2, 1 << 40), "dirent_seed": rng.randint(2, 1 << 40), "neg": i, "subset": None})
     model = {n: {"dir": c["dir"], "super": c["super"], "cyclic": bool(c.get("cyclic"))} for n, c in comps.items()}
-    return {"kind": "c18", "dirs": dirs, "files": files, "sources": sources, "negatives": negatives, "expect": expect, "components": model,
+    return {"kind": "c18", "fancy": fancy, "dirs": dirs, "files": files, "sources": sources, "negatives": negatives, "expect": expect, "components": model,
             "no_lower": no_lower, "schedules": scheds}
 
 
@@ -362,6 +395,41 @@ def run_case(case, env):
             _bump(probes, "multi_source_invocations")
         if cwd_rel != ".":
             _bump(probes, "invocations_from_a_subdirectory")
+    # ---- instances accept the properties of the class the component's own translation reports
+    fancy = case.get("fancy")
+    if fancy:
+        fl = "--no-lowercase-file-name" if case["no_lower"] else None
+        step = {"op": "GEN", "sources": [fancy["source"]], "O": None, "no_dyn": False, "no_lower": case["no_lower"], "hash_seed": 7, "dirent_seed": 7, "env_pad": 0, "timeout_ms": 6000}
+        r1 = sb.run(step)
+        stats["runs"] += 1
+        base_cls = None
+        pred = engine.predicted_outputs(step, sb.root, proj)
+        for p in pred:
+            if p.endswith(".ui") and os.path.exists(p):
+                try:
+                    root = ET.fromstring(open(p, "rb").read().decode("utf-8"))
+                    for cw in root.findall("./customwidgets/customwidget"):
+                        if cw.findtext("class") == "Dup":
+                            base_cls = cw.findtext("extends")
+                except ET.ParseError:
+                    pass
+        if r1.exit_status == 0 and base_cls in fancy["users"]:
+            _bump(probes, "components_with_ambiguous_root_type_checked")
+            user = fancy["users"][base_cls]
+            for order in ([user], [fancy["source"], user], [user, fancy["source"]]):
+                st = dict(step, sources=order, hash_seed=11 + len(order), dirent_seed=13)
+                r2 = sb.run(st)
+                stats["runs"] += 1
+                if r2.bound or r2.signal is not None:
+                    viol.append(V("termination", "c18:no-progress", "invocation %s did not end properly: %s" % (order, r2.disposition())))
+                elif r2.exit_status != 0:
+                    viol.append(V("model-agreement", "c18:instance-rejects-own-base-property",
+                                  "the component's own translation (%s) says its root object is a Dup extending %s, but an instance of the component does not "
+                                  "accept a property of %s (argv %s):\n%s\n--- %s\n%s" % (fancy["source"], base_cls, base_cls, order, r2.stderr[-700:], fancy["source"],
+                                                                                       case["files"]["proj/" + fancy["source"]])))
+                    break
+        elif r1.exit_status == 0:
+            _bump(probes, "ambiguous_root_type_base_not_recognised")
     ncustom = sum(len(e["custom"]) for e in case["expect"].values())
     chain = max([depth(comps, n) for n in comps if not comps[n]["cyclic"]] or [0])
     fps.append("dirs=%d|comps=%d|srcs=%d|custom=%d|chain=%d|cyc=%d|files=%s" % (
